@@ -531,7 +531,32 @@ def _no_raw(rep, P, F):
                 v = render(simplify(expr_tree(P, pr, s["rv"]["a"], depth=6, expand_params=0))) if s["rv"]["k"] == "use" else "?"
                 if "raw_value" in v or "plt_address(" in v and "write_address_relocation" not in v:
                     raws.append((s["l"], v))
+                # the stored value is usually the join of an if/else: judge every definition of the joined local that is
+                # reachable under (is_address, relocatable) - whatever further conditions the source adds
+                for dbi, dv in _joined_defs(P, pr, flow, s["rv"].get("a")):
+                    if dbi in reach and ("raw_value" in dv or "plt_address" in dv) and "write_address_relocation" not in dv:
+                        raws.append((pr.blocks[dbi]["t"].get("l"), dv))
     rep.ob("no-raw-address", "process_resolution", len(avoid) >= 2 and not raws, "on the (is_address, relocatable) edges every GOT word comes from write_address_relocation or is 0 with a symbol-based relocation" if not raws else f"raw GOT stores: {raws}", pr.file, pr.line)
+
+
+def _joined_defs(P, body, flow, op, depth=0):
+    """[(block, rendered value)] for every definition of a multiply-assigned local behind `op` (copies followed)."""
+    out = []
+    if not op or op[0] not in ("c", "m") or op[1][1] or depth > 4:
+        return out
+    ds = flow.defs.get(op[1][0], [])
+    if len(ds) == 1 and ds[0][1] != "call" and ds[0][3]["k"] == "use":
+        return _joined_defs(P, body, flow, ds[0][3]["a"], depth + 1)
+    if len(ds) < 2:
+        return out
+    for bi, si, proj, payload in ds:
+        if si == "call":
+            out.append((bi, callee_key(payload["f"]) or "?"))
+        elif payload["k"] in ("use", "cast"):
+            out.append((bi, render(simplify(expr_tree(P, body, payload["a"], depth=6, expand_params=0)))))
+        else:
+            out.append((bi, payload["k"]))
+    return out
 
 
 def absolute_flag(ctx, rep, F, P):
